@@ -238,7 +238,7 @@ def emit_harnesses(methods):
             # method name / opcode (methods of a family share their cls:: encoder, where operand ranges are checked)
             rep_key = (m.fam.get("name"), tuple(sorted((k, str(v)) for k, v in m.env.items() if k not in ("m", "OP"))))
             any_tier = "thorough"
-            if rep_key not in any_reps:
+            if rep_key not in any_reps and m.kind == "simple":      # the composite helpers (unwind 66) stay in the thorough tier
                 any_reps.add(rep_key)
                 any_tier = "quick"
             names.append(("any__" + m.name, m.name, "any", any_tier))
